@@ -467,32 +467,230 @@ func allocEscapes(a *ssa.Alloc) bool {
 	return false
 }
 
+// allocMode classifies how an address-taken local can be written:
+//
+//	0  only by stores in this function (possibly read by closures): calls do not clobber it
+//	1  it is captured by a closure that writes it, or its address is passed to a
+//	   call: every call / defer run may rewrite it
+func allocMode(a *ssa.Alloc) int {
+	if a.Referrers() == nil {
+		return 0
+	}
+	for _, r := range *a.Referrers() {
+		switch r := r.(type) {
+		case *ssa.Store:
+			if r.Addr != a {
+				return 1
+			}
+		case *ssa.UnOp, *ssa.DebugRef:
+		case *ssa.MakeClosure:
+			fn, _ := r.Fn.(*ssa.Function)
+			if fn == nil {
+				return 1
+			}
+			for i, b := range r.Bindings {
+				if b != ssa.Value(a) || i >= len(fn.FreeVars) {
+					continue
+				}
+				if freeVarWritten(fn, fn.FreeVars[i], 0) && !panicOnlyWriter(r, fn, fn.FreeVars[i]) {
+					return 1
+				}
+			}
+		default:
+			return 1
+		}
+	}
+	return 0
+}
+
+// panicOnlyWriter: the closure is only deferred and every store it makes to the
+// free variable is guarded by recover() != nil, i.e. it writes the variable only
+// while panicking. For the normal-return value of the variable such a closure
+// is not a writer.
+func panicOnlyWriter(mc *ssa.MakeClosure, fn *ssa.Function, fv *ssa.FreeVar) bool {
+	if mc.Referrers() == nil {
+		return false
+	}
+	for _, r := range *mc.Referrers() {
+		switch r.(type) {
+		case *ssa.Defer, *ssa.DebugRef:
+		default:
+			return false
+		}
+	}
+	if fv.Referrers() == nil {
+		return true
+	}
+	t := NewTerms(nil, fn)
+	ff := NewFuncFacts(t)
+	for _, r := range *fv.Referrers() {
+		switch x := r.(type) {
+		case *ssa.Store:
+			guarded := false
+			for _, f := range ff.At(x.Block()) {
+				if f.Op == "EQ" && !f.Pos && (f.A == "nil" || f.B == "nil") {
+					other := f.A
+					if other == "nil" {
+						other = f.B
+					}
+					if len(other) >= 5 && other[:5] == "call@" {
+						// a call of the builtin recover
+						Instrs(fn, func(in ssa.Instruction) {
+							if c, ok := in.(*ssa.Call); ok && t.Of(c) == other {
+								if b, ok := c.Call.Value.(*ssa.Builtin); ok && b.Name() == "recover" {
+									guarded = true
+								}
+							}
+						})
+					}
+				}
+			}
+			if !guarded {
+				return false
+			}
+		case *ssa.UnOp, *ssa.DebugRef:
+		default:
+			return false
+		}
+	}
+	return true
+}
+
+// freeVarWritten: the closure (or a nested closure) stores through the free variable or lets it escape.
+func freeVarWritten(fn *ssa.Function, fv *ssa.FreeVar, depth int) bool {
+	if fv.Referrers() == nil {
+		return false
+	}
+	if depth > 3 {
+		return true
+	}
+	for _, r := range *fv.Referrers() {
+		switch r := r.(type) {
+		case *ssa.Store:
+			return true
+		case *ssa.UnOp, *ssa.DebugRef:
+		case *ssa.MakeClosure:
+			inner, _ := r.Fn.(*ssa.Function)
+			if inner == nil {
+				return true
+			}
+			for i, b := range r.Bindings {
+				if b == ssa.Value(fv) && i < len(inner.FreeVars) && freeVarWritten(inner, inner.FreeVars[i], depth+1) {
+					return true
+				}
+			}
+		default:
+			return true
+		}
+	}
+	return false
+}
+
+// reachingStore returns the value of the unique store to the local that reaches
+// the load on every path (a small forward must-analysis per alloc), or nil.
 func (t *Terms) reachingStore(a *ssa.Alloc, load *ssa.UnOp) ssa.Value {
 	stores := AllocStores(a)
-	if !allocEscapes(a) && len(stores) == 1 {
+	if len(stores) == 0 {
+		return nil
+	}
+	mode := allocMode(a)
+	if mode == 0 && len(stores) == 1 {
 		return stores[0].Val
 	}
-	// nearest earlier store in the same block
-	b := load.Block()
-	var last *ssa.Store
-	for _, in := range b.Instrs {
-		if in == ssa.Instruction(load) {
-			break
-		}
-		if st, ok := in.(*ssa.Store); ok && st.Addr == a {
-			last = st
-			continue
-		}
-		if last != nil && allocEscapes(a) {
-			if _, isCall := in.(ssa.CallInstruction); isCall {
-				last = nil // an escaped local may be rewritten by the callee
+	fn := load.Parent()
+	if fn == nil || fn != a.Parent() {
+		return nil
+	}
+	type cell struct {
+		st   *ssa.Store // nil + known=false: conflict; nil + known=true: "no store yet"
+		conf bool
+	}
+	n := len(fn.Blocks)
+	out := make([]cell, n)
+	vis := make([]bool, n)
+	transfer := func(b *ssa.BasicBlock, in cell, stop ssa.Instruction) (cell, bool) {
+		cur := in
+		for _, ins := range b.Instrs {
+			if stop != nil && ins == stop {
+				return cur, true
+			}
+			switch x := ins.(type) {
+			case *ssa.Store:
+				if x.Addr == a {
+					cur = cell{st: x}
+				}
+			case *ssa.RunDefers:
+				if mode == 1 {
+					cur = cell{conf: true}
+				}
+			default:
+				if _, isCall := ins.(ssa.CallInstruction); isCall && mode == 1 {
+					if _, isDefer := ins.(*ssa.Defer); !isDefer {
+						cur = cell{conf: true}
+					}
+				}
 			}
 		}
+		return cur, false
 	}
-	if last != nil {
-		return last.Val
+	meet := func(b *ssa.BasicBlock) cell {
+		first := true
+		var res cell
+		for _, p := range b.Preds {
+			if !vis[p.Index] {
+				continue
+			}
+			o := out[p.Index]
+			if first {
+				res, first = o, false
+				continue
+			}
+			if o.conf || res.conf || o.st != res.st {
+				res = cell{conf: true}
+			}
+		}
+		return res
 	}
-	return nil
+	// iterate to a fixed point over reachable blocks (entry first)
+	for iter := 0; iter < 2*n+2; iter++ {
+		changed := false
+		for _, b := range fn.Blocks {
+			if b.Index != 0 && len(b.Preds) == 0 {
+				continue
+			}
+			var in cell
+			if b.Index != 0 {
+				any := false
+				for _, p := range b.Preds {
+					if vis[p.Index] {
+						any = true
+					}
+				}
+				if !any {
+					continue
+				}
+				in = meet(b)
+			}
+			o, _ := transfer(b, in, nil)
+			if !vis[b.Index] || o != out[b.Index] {
+				vis[b.Index], out[b.Index] = true, o
+				changed = true
+			}
+		}
+		if !changed {
+			break
+		}
+	}
+	lb := load.Block()
+	var in cell
+	if lb.Index != 0 {
+		in = meet(lb)
+	}
+	cur, _ := transfer(lb, in, load)
+	if cur.conf || cur.st == nil {
+		return nil
+	}
+	return cur.st.Val
 }
 
 // ---------------------------------------------------------------------------
